@@ -4,7 +4,7 @@ NOT_APPLICABLE = [
  {"property_id": "C04", "reason": "Gaussian-tail / infinite-series inequality over reals: no discrete or exact-rational core a TLA+ state machine can decide (DESIGN 6)"},
  {"property_id": "C08", "reason": "probability over Gaussian noise realisations (closed form only via the normal CDF); the deterministic second sentence is exercised under C06/C13 (DESIGN 6)"},
 ]
-PENDING = ["C01","C05","C14","C15","C17","C18","C19","C20"]
+PENDING = ["C14","C15","C17","C18","C19","C20"]
 for p in PENDING:
     NOT_APPLICABLE.append({"property_id": p, "reason": "check under construction in this round (planned in DESIGN 5); not yet claimed"})
 
@@ -39,3 +39,11 @@ add("C13", "The mask-and-compact loop of get_pareto_set is model-checked as a st
 add("C16", "TLC explores the EmpiricalMeanVarModel state machine (add_sample with every index sequence incl. repeats and out-of-range, update, clear) and checks that predictions change only at update() and to exactly the held data, order-independence of the statistics and non-negative variances; behaviours generated by tlc -simulate with larger constants are replayed operation by operation into the real class with list/tuple/array/set index containers and shuffled queries, comparing predict() with the exact rational statistics of the specification.",
     "Values from small integer sets (floats exact), 2-4 designs, histories up to 16 operations; negative indices not driven.",
     "TLC model checking of the model state machine + simulate-behaviour replay into code", "DESIGN 5 C16")
+
+_sf = ("Lattice geometry: N <= 3 designs, truth grid 3x3 / 4x4 with pitch 2 (robust = not exactly on a boundary), 2 objectives, cones orthant / acute / obtuse / Pythagorean / 3-facet; "
+       "the confidence schedule is overridden to 1 in replays (C04 is not claimed); slack constants of the model are compared with what the algorithm object builds. "
+       "Known findings (known_findings.json) are matched by instantiation signature.")
+add("C01", "TLC model-checks VOSafety - a hidden truth, an adversarial environment displaying ANY valid region (boxes, balls of a common radius, per-design rectangles for Auer) per active design per round, the round being VOAlgo's step operator on VOGeometry's relations - to termination for six instantiations mirroring the slacks the code passes; invariant: returned P eps-accurate. Behaviours from tlc -simulate and, for every spec mutant of the decision rule, TLC's shortest behaviour distinguishing mutant from rule, are replayed step by step into the real classes (scripted posterior); model-level counterexamples count only when the real class reproduces the inaccurate output.",
+    _sf, "TLC exhaustive model checking of the accuracy theorem + simulate / mutant-directed behaviour replay into code", "DESIGN 5 C01")
+add("C05", "Same machinery for VOGP (orthant, acute, obtuse, 3-facet cones; slack k*z*) and eps-PAL (scalar eps, incl. eps = 0): every eps-isolated design is in P and P is internally non-eps-dominated at termination, for every truth and every valid box history on the lattice; simulate and spec-mutant-distinguishing behaviours replayed into the real VOGP / EpsilonPAL classes.",
+    _sf, "TLC exhaustive model checking of the accuracy theorem + simulate / mutant-directed behaviour replay into code", "DESIGN 5 C05")
